@@ -18,7 +18,7 @@ use std::sync::Mutex;
 
 pub const B16: [u8; 16] = [0, 1, 2, 3, 4, 5, 0x0B, 0x11, 0x1F, 0x26, 0x7F, 0x80, 0xFF, b'a', b'+', b'/'];
 
-pub const FIELD_LENS: &[usize] = &[0, 1, 127, 128, 16383, 16384, 65535];
+pub const FIELD_LENS: &[usize] = &[0, 1, 127, 128, 255, 256, 257, 16383, 16384, 65534, 65535];
 
 pub fn size_targets(ctx: &Ctx) -> Vec<usize> {
     let mut t = vec![127, 128, 16383, 16384, 2_097_151, 2_097_152];
